@@ -694,20 +694,31 @@ class Hugr(Mapping[Node, NodeData], Generic[OpVarCov]):
 
     def _to_serial(self) -> SerialHugr:
         """Serialize the HUGR."""
-        node_it = [node for node in self._nodes if node is not None]
+        # Node indices are compacted. The order follows the node indices, except
+        # that a parent is always listed before its children and siblings keep
+        # their order, as readers of the format require.
+        order = self._hierarchy_order()
+        new_idx = {node.idx: i for i, node in enumerate(order)}
+
+        def _serialize_node(node: Node) -> SerialOp:
+            data = self[node]
+            parent = data.parent if data.parent else node
+            o = data.op._to_serial(Node(new_idx[parent.idx]))
+            return SerialOp(root=o)  # type: ignore[arg-type]
 
         def _serialize_link(
             link: tuple[_SO, _SI],
         ) -> tuple[tuple[NodeIdx, PortOffset], tuple[NodeIdx, PortOffset]]:
             src, dst = link
             s, d = self._constrain_offset(src.port), self._constrain_offset(dst.port)
-            return (src.port.node.idx, s), (dst.port.node.idx, d)
+            return (new_idx[src.port.node.idx], s), (new_idx[dst.port.node.idx], d)
 
         return SerialHugr(
-            # non contiguous indices will be erased
-            nodes=[node._to_serial(Node(idx, {})) for idx, node in enumerate(node_it)],
+            nodes=[_serialize_node(node) for node in order],
             edges=[_serialize_link(link) for link in self._links.items()],
-            metadata=[node.metadata if node.metadata else None for node in node_it],
+            metadata=[
+                self[node].metadata if self[node].metadata else None for node in order
+            ],
         )
 
     def _constrain_offset(self, p: P) -> PortOffset:
